@@ -265,17 +265,27 @@ STALE = b"\xa5STALE-ARTEFACT-FROM-AN-EARLIER-RUN" * 3000      # about 100 KB, lo
 
 
 def prove_over_stale(mod, tmp, files):
-    """the output files already exist and are longer than what is about to be written (a previous, bigger run in the same
-    directory): prove() must replace them. Also: the proving step must not leave file descriptors open.
-    Returns a message or None."""
+    """prove() in a working directory other than the one the backend was imported in (scripts chdir into an output
+    directory), where the output files already exist and are longer than what is about to be written (a previous, bigger
+    run): prove() must write both files THERE and replace the old content. Also: no file descriptors left open.
+    The files are then moved to `tmp` for the caller. Returns a message or None."""
+    run = os.path.join(tmp, "cwd-at-prove")
+    os.makedirs(run, exist_ok=True)
     for f in files:
-        with open(os.path.join(tmp, f), "wb") as fh:
+        if os.path.exists(os.path.join(tmp, f)):
+            os.remove(os.path.join(tmp, f))
+        with open(os.path.join(run, f), "wb") as fh:
             fh.write(STALE)
     try:
         fds = set(os.listdir("/proc/self/fd"))
     except OSError:
         fds = None
-    mod.prove()
+    old = os.getcwd()
+    os.chdir(run)
+    try:
+        mod.prove()
+    finally:
+        os.chdir(old)
     if fds is not None:
         after = set(os.listdir("/proc/self/fd"))
         leaked = []
@@ -288,7 +298,9 @@ def prove_over_stale(mod, tmp, files):
         if leaked:
             return "prove() left its output open: %r" % leaked
     for f in files:
-        data = open(os.path.join(tmp, f), "rb").read()
+        data = open(os.path.join(run, f), "rb").read()
         if data == STALE:
-            return "%s was not rewritten by prove()" % f
+            elsewhere = " (a file of that name appeared in the directory the backend was imported in)" if os.path.exists(os.path.join(tmp, f)) else ""
+            return "%s was not written into the working directory of the prove() call%s" % (f, elsewhere)
+        os.replace(os.path.join(run, f), os.path.join(tmp, f))
     return None
